@@ -300,6 +300,7 @@ class Inliner(object):
         callee_uses = sum(1 for n in ast.walk(fn) if isinstance(n, ast.Call) and isinstance(n.func, ast.Name) and n.func.id == s.name)
         all_uses = sum(1 for n in ast.walk(fn) if isinstance(n, ast.Name) and n.id == s.name)
         if callee_uses == all_uses and callee_uses: closures[s.name] = s
+    self.expr_inline(fn, cls, closures)
     fn.body = self.block(fn.body, cls, qual, depth, closures)
     # the definition of a closure disappears only when every call to it was inlined
     mine = [s for s in fn.body if isinstance(s, FUNC) and closures.get(s.name) is s]
@@ -310,6 +311,52 @@ class Inliner(object):
     for s in ast.walk(fn):
       if s is not fn and isinstance(s, FUNC) and s.name not in closures:
         pass
+
+  def expr_inline (self, fn, cls, closures):
+    """helpers whose whole body is `return <expr>` are substituted as expressions wherever they are called
+    (also inside comprehensions, lambdas and short-circuit operands)"""
+    me = self
+    class X(ast.NodeTransformer):
+      def visit_FunctionDef (self_, n):
+        return n if (n is not fn and closures.get(n.name) is n) else self_.generic_visit(n)
+      def visit_Call (self_, n):
+        self_.generic_visit(n)
+        r = me.resolve(n, cls, closures)
+        if r is None: return n
+        h, recv, kind = r
+        body = [b for b in h.body if not (isinstance(b, ast.Expr) and isinstance(b.value, ast.Constant))]
+        if len(body) != 1 or not isinstance(body[0], ast.Return) or body[0].value is None: return n
+        if h is fn: return n
+        a = h.args
+        ps = [x.arg for x in a.posonlyargs + a.args]
+        if any(isinstance(x, ast.Starred) for x in n.args) or any(kw.arg is None for kw in n.keywords): return n
+        actual = {}
+        if kind == 'method':
+          if not ps: return n
+          actual[ps[0]] = recv; ps2 = ps[1:]
+        else: ps2 = ps
+        if len(n.args) > len(ps2): return n
+        for p_, v in zip(ps2, n.args): actual[p_] = v
+        for kw in n.keywords:
+          if kw.arg not in ps2 or kw.arg in actual: return n
+          actual[kw.arg] = kw.value
+        defaults = dict(zip(reversed(ps), reversed(a.defaults)))
+        for p_ in ps2:
+          if p_ not in actual:
+            if p_ not in defaults: return n
+            actual[p_] = defaults[p_]
+        expr = copy.deepcopy(body[0].value)
+        # a non-trivial argument may be substituted only when the parameter is read exactly once
+        for p_, v in actual.items():
+          uses = sum(1 for x in ast.walk(expr) if isinstance(x, ast.Name) and x.id == p_)
+          if not _simple(v) and uses > 1: return n
+        # locals bound inside the expression (comprehension variables) must not capture argument names
+        bound = set(x.id for x in ast.walk(expr) if isinstance(x, ast.Name) and isinstance(x.ctx, ast.Store))
+        argnames = set(x.id for v in actual.values() for x in ast.walk(v) if isinstance(x, ast.Name))
+        if bound & argnames: return n
+        me.inlined.append((fn.name, h.name))
+        return ast.copy_location(_Subst(dict(actual)).visit(expr), n)
+    X().visit(fn)
 
   def block (self, stmts, cls, qual, depth, closures):
     out = []
@@ -702,6 +749,111 @@ def _drop_dead (fn):
     return out
   fn.body = walk(fn.body) or [ast.Pass()]
 
+
+# ---------------------------------------------------------------- N4 unroll loops over literal name tuples
+class _FoldAttr(ast.NodeTransformer):
+  def visit_Call (self, n):
+    self.generic_visit(n)
+    if isinstance(n.func, ast.Name) and n.func.id == 'getattr' and len(n.args) == 2 and not n.keywords \
+       and isinstance(n.args[1], ast.Constant) and isinstance(n.args[1].value, str) and n.args[1].value.isidentifier():
+      return ast.copy_location(ast.Attribute(value=n.args[0], attr=n.args[1].value, ctx=ast.Load()), n)
+    return n
+  def visit_Expr (self, n):
+    self.generic_visit(n)
+    c = n.value
+    if isinstance(c, ast.Call) and isinstance(c.func, ast.Name) and c.func.id == 'setattr' and len(c.args) == 3 and not c.keywords \
+       and isinstance(c.args[1], ast.Constant) and isinstance(c.args[1].value, str) and c.args[1].value.isidentifier():
+      return ast.copy_location(ast.Assign(targets=[ast.Attribute(value=c.args[0], attr=c.args[1].value, ctx=ast.Store())], value=c.args[2], lineno=n.lineno), n)
+    return n
+
+def _continue_to_structured (stmts):
+  """`if c: continue` + rest  ->  if c: pass else: rest   (continue acts as the exit of one unrolled iteration);
+  real `return` statements are parked as placeholders while the continues are eliminated"""
+  parked = {}
+  class Park(ast.NodeTransformer):
+    def visit_Return (self, n):
+      k = '__pxa_parked_%d' % len(parked); parked[k] = n
+      return ast.copy_location(ast.Global(names=[k]), n)
+    def visit_FunctionDef (self, n): return n
+    def visit_Lambda (self, n): return n
+  class C2R(ast.NodeTransformer):
+    def visit_Continue (self, n): return ast.copy_location(ast.Return(value=None), n)
+    def visit_For (self, n): return n
+    def visit_While (self, n): return n
+    def visit_FunctionDef (self, n): return n
+    def visit_Lambda (self, n): return n
+  class Unpark(ast.NodeTransformer):
+    def visit_Global (self, n):
+      if len(n.names) == 1 and n.names[0] in parked: return copy.deepcopy(parked[n.names[0]])
+      return n
+  body = [C2R().visit(Park().visit(s)) for s in stmts]
+  body = _elim(body, [], None, '__unroll_done')
+  return [Unpark().visit(s) for s in body]
+
+def unroll_name_loops (fn, known_locals):
+  n_un = 0
+  def has (stmts, types):
+    for s in stmts:
+      for x in ([s] + list(own_nodes(s))) if not isinstance(s, SCOPES) else []:
+        if isinstance(x, types): return True
+    return False
+  def walk (body):
+    nonlocal n_un
+    out = []
+    for s in body:
+      if not isinstance(s, SCOPES):
+        for f in ('body', 'orelse', 'finalbody'):
+          b = getattr(s, f, None)
+          if isinstance(b, list) and b and isinstance(b[0], ast.stmt): setattr(s, f, walk(b))
+        if isinstance(s, ast.Try):
+          for h in s.handlers: h.body = walk(h.body)
+      if isinstance(s, ast.For) and isinstance(s.target, ast.Name) and s.target.id not in known_locals and not s.orelse \
+         and isinstance(s.iter, (ast.Tuple, ast.List)) and 0 < len(s.iter.elts) <= 40 and all(isinstance(e, ast.Constant) and isinstance(e.value, str) for e in s.iter.elts) \
+         and any(isinstance(x, ast.Call) and isinstance(x.func, ast.Name) and x.func.id in ('getattr', 'setattr', 'hasattr') and len(x.args) >= 2 and isinstance(x.args[1], ast.Name) and x.args[1].id == s.target.id for b in s.body for x in ast.walk(b)):
+        # break (of this loop) cannot be unrolled structurally
+        brk = False
+        class B(ast.NodeVisitor):
+          def visit_Break (self, n):
+            nonlocal brk; brk = True
+          def visit_For (self, n): pass
+          def visit_While (self, n): pass
+          def visit_FunctionDef (self, n): pass
+        for b in s.body: B().visit(b)
+        if not brk and not has(s.body, (ast.Return,)) or (not brk and True):
+          try:
+            copies = []
+            stored = set()
+            for b in s.body:
+              for x in ([b] + list(own_nodes(b))):
+                if isinstance(x, ast.Name) and isinstance(x.ctx, ast.Store) and x.id not in known_locals: stored.add(x.id)
+            for k, e in enumerate(s.iter.elts):
+              m = {s.target.id: e}
+              for nm in stored: m[nm] = "%s__%d" % (nm, k)
+              cp = [_Subst(m).visit(copy.deepcopy(b)) for b in s.body]
+              cp = [_FoldAttr().visit(b) for b in cp]
+              if has(cp, (ast.Continue,)): cp = _continue_to_structured(cp)
+              copies.append(cp)
+            # a `return` inside an iteration must skip the remaining iterations: chain copies as continuations
+            if has(s.body, (ast.Return,)):
+              chained = []
+              for cp in reversed(copies):
+                chained = _chain(cp, chained)
+              out += chained
+            else:
+              for cp in copies: out += cp
+            n_un += 1
+            continue
+          except NotInlinable:
+            pass
+      out.append(s)
+    return out
+  fn.body = walk(fn.body)
+  return n_un
+
+def _chain (first, rest):
+  """first ; rest  where first may contain `return` (kept as return: control simply leaves the function)"""
+  return first + rest
+
 # ---------------------------------------------------------------- driver
 def normalize_module (tree, modname, stats=None):
   inv = inventory().get(modname)
@@ -723,6 +875,7 @@ def normalize_module (tree, modname, stats=None):
           q = prefix + s.name
           known = set(inv.get(q, ())) if q in inv else set()
           if q in inv:
+            info['unrolled'] = info.get('unrolled', 0) + unroll_name_loops(s, known)
             for _ in range(4):
               k = expand_temps(s, known)
               info['expanded'] += k
